@@ -14,10 +14,12 @@ import (
 	"strconv"
 	"strings"
 	"sync"
+	"sync/atomic"
 	"syscall"
 	"time"
 
 	plugin "github.com/hashicorp/go-plugin"
+	"github.com/hashicorp/go-plugin/runner"
 	"verif/harness/hk"
 	"verif/harness/sx"
 	"verif/harness/vp"
@@ -36,15 +38,18 @@ type raCase struct {
 	Foreign bool `json:"foreign,omitempty"`
 	// Linger: the real plugins acknowledge the shutdown request and keep running (only a force kill ends them)
 	Linger bool `json:"linger,omitempty"`
+	// TestFunc: clients of test-mode servers attach through a caller-supplied ReattachFunc (test mode still means: Kill
+	// leaves the server alone)
+	TestFunc bool `json:"test_func,omitempty"`
 }
 
 func init() { families["reattach"] = runReattach }
 
 func genReattach(o opts) []raCase {
 	r := hk.Rng(o.seed + 103)
-	n := 34
+	n := 36
 	if o.tier == "thorough" {
-		n = 310
+		n = 312
 	}
 	var cs []raCase
 	for _, pr := range []string{"netrpc", "grpc"} {
@@ -55,6 +60,7 @@ func genReattach(o opts) []raCase {
 			// a failed attach stays failed: Start, Client and the accessors once more on the client whose attach found nothing
 			raCase{Proto: pr, Kind: "directed-start-again", Ops: []raOp{{0, 0, 0}, {4, 0, 0}, {1, 0, 0}, {8, 1, 0}, {8, 1, 0}, {3, 1, 0}, {8, 0, 0}}},
 			raCase{Proto: pr, Kind: "directed-start-again-test", Ops: []raOp{{0, 1, 0}, {6, 0, 0}, {1, 0, 0}, {8, 1, 0}, {3, 1, 0}, {8, 1, 0}}},
+			raCase{Proto: pr, Kind: "directed-test-mode-func", TestFunc: true, Ops: []raOp{{0, 1, 0}, {2, 0, 5}, {4, 0, 0}, {7, 0, 0}, {1, 0, 0}, {3, 1, 0}, {4, 1, 0}, {7, 0, 0}, {6, 0, 0}, {7, 0, 0}}},
 			raCase{Proto: pr, Kind: "directed-linger", Linger: true, Ops: []raOp{{0, 0, 0}, {1, 0, 0}, {2, 1, 9}, {4, 1, 0}, {7, 0, 0}, {1, 0, 0}}},
 			raCase{Proto: pr, Kind: "directed-linger-foreign", Linger: true, Foreign: true, Ops: []raOp{{0, 0, 0}, {3, 0, 0}, {1, 0, 0}, {4, 1, 0}, {7, 0, 0}, {1, 1, 0}}},
 			raCase{Proto: pr, Kind: "directed-foreign", Foreign: true, Ops: []raOp{{0, 0, 0}, {2, 0, 7}, {1, 0, 0}, {3, 1, 0}, {7, 0, 0}, {4, 1, 0}, {7, 0, 0}, {1, 0, 0}}},
@@ -97,6 +103,7 @@ func genReattach(o opts) []raCase {
 			}
 		}
 		c.Linger = r.Intn(4) == 0
+		c.TestFunc = r.Intn(3) == 0
 		cs = append(cs, c)
 	}
 	return cs
@@ -204,6 +211,11 @@ func runOneReattach(c raCase) (sx.V, sx.V) {
 				case <-time.After(5 * time.Second):
 				}
 				insts = append(insts, &raInst{test: true, cancel: cancel, closeCh: cch})
+				if c.TestFunc && cfg != nil {
+					cp := *cfg
+					cp.ReattachFunc = func() (runner.AttachedRunner, error) { return &fakeAttached{gone: cch}, nil }
+					cfg = &cp
+				}
 				cl := plugin.NewClient(&plugin.ClientConfig{HandshakeConfig: hs, Plugins: plugs(), Reattach: cfg, Logger: hk.QuietLogger()})
 				clients = append(clients, cl)
 				if cfg != nil {
@@ -381,3 +393,15 @@ func runReattach(o opts) error {
 	wg.Wait()
 	return nil
 }
+
+// fakeAttached: what a caller-supplied ReattachFunc hands back for an in-process test-mode server
+type fakeAttached struct {
+	gone  chan struct{}
+	kills int32
+}
+
+func (f *fakeAttached) Wait(context.Context) error                       { <-f.gone; return nil }
+func (f *fakeAttached) Kill(context.Context) error                       { atomic.AddInt32(&f.kills, 1); return nil }
+func (f *fakeAttached) ID() string                                       { return "test-mode-server" }
+func (f *fakeAttached) PluginToHost(n, a string) (string, string, error) { return n, a, nil }
+func (f *fakeAttached) HostToPlugin(n, a string) (string, string, error) { return n, a, nil }
